@@ -17,7 +17,7 @@ NAMES = [["pfx", "id"], ["http", "port"], ["peer", "ids"], ["json", "file"], ["m
 TAGW = [["pfxuid"], ["listen", "port"], ["file", "path"], ["nick"], ["limit"], ["endpoint"], ["wait"], ["lvl"], ["mod"], ["labels"]]
 ALIASW = [["old", "id"], ["old", "port"], ["old", "file"], ["old", "name"], ["old", "size"], ["old", "url"], ["old", "wait"], ["old", "lvl"], ["old", "mode"], ["old", "tags"]]
 ALL_KINDS = ["int", "int8", "uint16", "str", "bool", "f64", "dur", "strs", "ints", "smap", "set", "time", "named", "durs", "structs", "f32", "c64",
-             "nstrs", "nmap", "lnamed", "mnamed", "knamed", "pint", "pstrs", "pmap", "pdurs", "ncplx", "ip", "uptr", "nkset", "nkmss", "dkmap"]
+             "nstrs", "nmap", "lnamed", "mnamed", "knamed", "pint", "pstrs", "pmap", "pdurs", "ncplx", "ip", "uptr", "nkset", "nkmss", "dkmap", "estructs"]
 NARROW = ["int8", "uint16", "named", "f32", "c64"]   # (ncplx has no out-of-range pattern of its own)
 GARBAGE = ["", " ", ",", ":", "\"", "\"unterminated", "`", "a,b:c", "{", "}", "[", "{\"a\":", "-", "--", "0x", "1e999", "99999999999999999999",
            "\x00", "\\", "a\nb", "é→", "k:v,k:w", "'", "=", "a=b", "true,false", "1,2,x"]
